@@ -1,7 +1,7 @@
 import CattrsModel.Preconf.Lemmas3
 /-!
-# C16, fourth layer: keys sent through `to_builtins` (msgspec) and unchanged (`Counter`); the round trip of
-mappings through the generated mapping hook and of `Counter`
+# C16, fourth layer: keys sent through `to_builtins` (msgspec); the round trip of mappings (`Counter` included)
+through the generated mapping hook
 -/
 namespace CattrsModel.Preconf
 open CattrsModel
@@ -90,97 +90,34 @@ theorem key_toB (hw : w.WF = true) (he : env.OK) (hf : cf.fmt = .msgspec) {kt : 
   · rw [toB_normKey hw hf hky hh ha]; exact (key_st hw he hky ha).1
   · exact key_inj_of hw he hky ha hb (toB_normKey hw hf hky hh ha) (toB_normKey hw hf hky hh hb)
 
-/-! ### `Counter` keys (never unstructured: finding F42 delimits the supported key types) -/
-
-theorem counter_normKey {kt : PTy} (hk : keyTy w cf.fmt kt = true)
-    (hck : counterKey w cf kt = true) {a : Obj} (ha : confP w kt a = true) :
-    normKey w env cf.fmt a = normKey w env cf.fmt (unP w env cf kt a) := by
-  obtain ⟨fmt, uh⟩ := cf
-  cases kt with
-  | int | str | bool => cases a <;> simp [confP] at ha <;> simp [unP]
-  | float =>
-    cases a <;> simp [confP] at ha
-    cases uh <;> simp [counterKey] at hck
-    simp [unP]
-  | bytes | datetime | date =>
-    cases a <;> simp [confP] at ha <;> cases fmt <;> simp [counterKey] at hck <;> simp [unP, normKey]
-  | enum e =>
-    obtain ⟨m, rfl, hm⟩ := conf_enum_invP ha
-    cases fmt
-    · simp only [counterKey, bne_iff_ne, ne_eq] at hck
-      simp [unP, hck]
-    · simp [counterKey] at hck
-    · simp [unP]
-  | lit vs =>
-    simp only [confP, Bool.and_eq_true] at ha
-    cases a <;> simp [litLeaf] at ha <;> simp [unP]
-  | punion _ | coll _ _ | tupleHet _ | map _ _ _ | opt _ | cls _ _ _ | td _ => simp [keyTy] at hk
-
-theorem counter_encKey (hw : w.WF = true) {kt : PTy} (hk : keyTy w cf.fmt kt = true)
-    (hck : counterKey w cf kt = true) {a : Obj} (ha : confP w kt a = true) :
-    encKeyF w cf.fmt a = true := by
-  obtain ⟨fmt, uh⟩ := cf
-  cases kt with
-  | int | str | float => cases a <;> simp [confP] at ha; cases fmt <;> simp [encKeyF, encKey, yamlKey]
-  | bool =>
-    cases a <;> simp [confP] at ha
-    simp only [keyTy, beq_iff_eq] at hk; subst hk
-    simp [encKeyF, yamlKey]
-  | bytes | datetime | date =>
-    cases a <;> simp [confP] at ha <;> cases fmt <;> simp [counterKey] at hck <;> simp [encKeyF, encKey, yamlKey]
-  | enum e =>
-    obtain ⟨m, rfl, hm⟩ := conf_enum_invP ha
-    cases fmt
-    · simp only [counterKey, bne_iff_ne, ne_eq] at hck
-      simp [encKeyF, encKey, hck]
-    · simp [counterKey] at hck
-    · simp only [counterKey, plainStrEnum, Bool.not_eq_true', Bool.and_eq_false_iff, beq_eq_false_iff_ne, ne_eq,
-        Bool.not_eq_false'] at hck
-      simp only [encKeyF, encKey]
-      rcases hck with h | h
-      · simp [h]
-      · obtain ⟨i, hv⟩ := value_int hw hm h
-        simp [hv, isIntObj]
-  | lit vs =>
-    simp only [confP, Bool.and_eq_true] at ha
-    cases a <;> simp [litLeaf] at ha <;> cases fmt <;> simp [encKeyF, encKey, yamlKey] <;> simp [keyTy] at hk
-    all_goals
-      have := hk _ (by simpa using ha)
-      simp [isStrObj] at this
-  | punion _ | coll _ _ | tupleHet _ | map _ _ _ | opt _ | cls _ _ _ | td _ => simp [keyTy] at hk
-
-theorem key_counter (hw : w.WF = true) (he : env.OK) {kt : PTy}
-    (hk : keyTy w cf.fmt kt = true) (hck : counterKey w cf kt = true) {a : Obj} (ha : confP w kt a = true) :
-    KeyGood w env cf kt id a ∧ ∀ b, confP w kt b = true → KeyInj w env cf id a b := by
-  refine ⟨⟨counter_encKey hw hk hck ha, ?_⟩, fun b hb => ⟨fun h => h, ?_⟩⟩
-  · simp only [id]; rw [counter_normKey hk hck ha]; exact (key_st hw he hk ha).1
-  · exact key_inj_of (u := id) hw he hk ha hb (counter_normKey hk hck ha) (counter_normKey hk hck hb)
-
 /-! ### mappings -/
 
-/-- mappings through the generated mapping hook (every format; msgspec when the mapping is not passed through) -/
+/-- mappings through the generated mapping hook (every format; msgspec when the mapping is not passed through;
+`Counter[K]` always: its keys go through `K`'s handler like those of any other mapping) -/
 theorem rt_map_custom (hw : w.WF = true) (he : env.OK) {k : PMK} {kt vt : PTy} {kvs : List (Obj × Obj)}
     (hs : sup w cf (.map k kt vt) = true) (hc : confP w (.map k kt vt) (.dict kvs) = true)
-    (hk1 : (k == .counter) = false)
-    (hcust : (cf.fmt == .msgspec && hk cf kt != .custom && hk cf vt != .custom) = false)
+    (hcust : (cf.fmt == .msgspec && k != .counter && hk cf kt != .custom && hk cf vt != .custom) = false)
     (ih : ∀ p ∈ kvs, RT w env cf vt p.2) : RT w env cf (.map k kt vt) (.dict kvs) := by
   simp only [confP, Bool.and_eq_true, List.all_eq_true] at hc
   obtain ⟨hall, hnd⟩ := hc
-  simp only [sup, Bool.and_eq_true, hk1, Bool.false_eq_true, if_false, Bool.not_eq_true'] at hs
-  obtain ⟨⟨⟨hkt, _⟩, _⟩, hf20⟩ := hs
+  simp only [sup, Bool.and_eq_true, Bool.not_eq_true'] at hs
+  obtain ⟨⟨⟨hkt, _⟩, _⟩, _, hf20⟩ := hs
   have hp : cf.fmt = .msgspec → plainStrEnum w kt = false := by
     intro hf
     cases hpe : plainStrEnum w kt
     · rfl
     · exfalso
       -- a plain str-valued Enum key type has handler class `ident`, so the mapping is not passed through only
-      -- because the value handler is custom: excluded (finding F20)
+      -- because it is a Counter or the value handler is custom: excluded (finding F20)
       have hkk : hk cf kt = .ident := by cases kt <;> simp [plainStrEnum] at hpe <;> simp [hk]
-      simp [hf, hkk, hpe] at hcust hf20
-      simp [hcust] at hf20
+      simp only [hf, hkk, hpe, beq_self_eq_true, Bool.true_and] at hcust hf20
+      simp only [Bool.or_eq_false_iff, beq_eq_false_iff_ne, ne_eq] at hf20
+      have h1 : (k != PMK.counter) = true := by simpa using hf20.1
+      have h2 : (hk cf vt != HK.custom) = true := by simpa using hf20.2
+      simp [h1, h2] at hcust
   have hu : unP w env cf (.map k kt vt) (.dict kvs)
       = .dict (mkDict (kvs.map (fun p => (unP w env cf kt p.1, unP w env cf vt p.2)))) := by
-    simp only [unP, hk1, Bool.false_eq_true, if_false]
+    simp only [unP]
     rw [if_neg (by simpa using hcust)]
   unfold RT
   rw [hu]
@@ -188,30 +125,5 @@ theorem rt_map_custom (hw : w.WF = true) (he : env.OK) {k : PMK} {kt vt : PTy} {
     (fun p hp' => (key_unP hw he hkt hp (hall p hp').1).1)
     ih
     (fun p hp' q hq => (key_unP hw he hkt hp (hall p hp').1).2 q.1 (hall q hq).1)
-
-/-- `Counter[K]`: keys are left alone, counts are ints -/
-theorem rt_counter (hw : w.WF = true) (he : env.OK) {kt vt : PTy} {kvs : List (Obj × Obj)}
-    (hs : sup w cf (.map .counter kt vt) = true) (hc : confP w (.map .counter kt vt) (.dict kvs) = true) :
-    RT w env cf (.map .counter kt vt) (.dict kvs) := by
-  simp only [confP, Bool.and_eq_true, List.all_eq_true] at hc
-  obtain ⟨hall, hnd⟩ := hc
-  simp only [sup, Bool.and_eq_true, beq_self_eq_true, if_true] at hs
-  obtain ⟨⟨⟨hkt, _⟩, _⟩, hvi, hck⟩ := hs
-  have hvt : vt = .int := by cases vt <;> simp at hvi; rfl
-  subst hvt
-  have hu : unP w env cf (.map .counter kt .int) (.dict kvs)
-      = .dict (mkDict (kvs.map (fun p => (id p.1, id p.2)))) := by
-    simp [unP]
-  unfold RT
-  rw [hu]
-  refine good_map .counter kt .int kvs id id hnd
-    (fun p hp' => (key_counter hw he hkt hck (hall p hp').1).1)
-    (fun p hp' => ?_)
-    (fun p hp' q hq => (key_counter hw he hkt hck (hall p hp').1).2 q.1 (hall q hq).1)
-  have := rt_int (env := env) (cf := cf) (hall p hp').2
-  have hx : unP w env cf .int p.2 = p.2 := by
-    have := (hall p hp').2
-    cases hp2 : p.2 <;> simp [hp2, confP] at this <;> simp [unP]
-  unfold RT at this; rw [hx] at this; exact this
 
 end CattrsModel.Preconf
